@@ -16,6 +16,8 @@ def gen(args):
         Xi = P.centred_lattice(rng, n, m, 4, "lowrank" if rng.random() < 0.2 else "full")
         p = int(rng.integers(1, 3))
         Yi = P.centred_lattice(rng, n, p, 4)
+        if rng.random() < 0.15:
+            Yi[:, 0] = Xi[:, int(rng.integers(m))]          # a target that is exactly one of the features
         y1d = p == 1 and rng.random() < 0.6
         a = int(rng.integers(1, 9))
         Xn = rng.integers(-6, 7, size=(3, m))
